@@ -630,7 +630,10 @@ class MosaikRemote(mosaik_api_v3.MosaikProxy):
             # Check if async_requests are enabled.
             self._assert_async_requests(src_sim, self.sim)
             if self.world.use_cache:
-                cache_slice = src_sim.get_output_for(self.sim.last_step.time)
+                # The request comes from within the current step; last_step
+                # is only updated once that step has returned.
+                now = max(self.sim.last_step.time, self.sim.current_step.time)
+                cache_slice = src_sim.get_output_for(now)
             else:
                 cache_slice = {}
 
